@@ -57,7 +57,7 @@ ClauseNames == {"Completed", "PolyOrder", "CentreOrder", "RavelOrder", "SelectOr
 ValidSeq == SelectSeq([n \in 1..Len(polys) |-> n - 1], LAMBDA n : polys[n + 1] # <<>>)
 PlotVar(ww, e) == ww.vars[VarByName(ww, e.var)]
 IsPlottable(v) == OnGrid(v) /\ Len(v.dims) = Len(v.gridpos)      \* no leftover dimensions
-FaceTag(ww, v, n) == Tag(ww, v, <<>>, n)
+FaceTag(ww, v, n) == Shift(Tag(ww, v, <<>>, n), woff)      \* (the stored value after the in-place modifications so far)
 NonMissing(S) == {x \in S : x # MISSING}
 
 Clause(name, ww, e) ==
